@@ -275,6 +275,8 @@ def main():
         engine.phase(ck, 'single unknown item of nesting 3', shard_single, shards, items=len(d3))
         shards = [(BASES[7], [a], d1, dl) for a in d1]
         engine.phase(ck, 'pairs from the nesting <= 1 set on the richest base text', shard_pairs, shards, pairs=len(d1) ** 2)
+        shards = [(b, list(ch), dl) for b in CBASES[:4] for ch in engine.chunks(d2, 60)]
+        engine.phase(ck, 'commented unknown item of nesting <= 2 at every boundary, annotation support on', shard_commented, shards, items=len(d2), bases=4)
         engine.phase(ck, 'nesting-depth family 10^5 (plain build, 8 MiB stack)', shard_depth, [([100000], 'plain', dl)])
     ck.assumptions = ['malformed unknown items are unspecified and never generated', 'inner names of unknown sections include declared names with '
                       'unconvertible values: they must be skipped, not applied']
